@@ -3,6 +3,7 @@
 //!   vh replay <prop> <cases.ndjson> <report.json>      direction R (spec -> implementation)
 //!   vh record <prop> <seed> <n> <trace.ndjson>         direction V (implementation -> spec)
 mod c04;
+mod c06;
 mod c10;
 mod c12;
 mod c13;
@@ -29,6 +30,7 @@ fn main() {
       note_case(&serde_json::json!("start"));
       match args[2].as_str() {
         "C04" => c04::replay(&cases, &mut rep),
+        "C06" => c06::replay(&cases, &mut rep),
         "C10" => c10::replay(&cases, &mut rep),
         "C12" => c12::replay(&cases, &mut rep),
         "C13" => c13::replay(&cases, &mut rep),
@@ -47,6 +49,7 @@ fn main() {
       let mut out = TraceOut::create(&args[5]);
       match args[2].as_str() {
         "C04" => c04::record(seed, n, &mut out),
+        "C06" => c06::record(seed, n, &mut out),
         "C10" => c10::record(seed, n, &mut out),
         "C12.list" => c12::record("list", seed, n, &mut out),
         "C12.cred" => c12::record("cred", seed, n, &mut out),
